@@ -71,6 +71,19 @@ func exact(names ...string) func(string) bool {
 	}
 }
 
+// c07InstantiationPool: one generic union at two instantiations inside one inferred type (gboth), a user
+// that matches the second one (gusey) and an unrelated definition that merely mentions that instantiation
+// (gother).  Whether the case table of Og<string> exists must not depend on gother having been seen.
+func c07InstantiationPool() []c07Def {
+	return []c07Def{
+		/*0*/ {name: "Og", src: "type Og<T> =\n  | Sg of T\n  | Ng\n", owns: prefixOwner("Og"), declOnly: true},
+		/*1*/ {name: "gboth", src: "let gboth a b =\n  (Sg a, Sg b)\n", deps: []int{0}, owns: exact("gboth")},
+		/*2*/ {name: "gusey", src: "let gusey () =\n  let (_, y) = gboth 1 \"s\"\n  match y with\n  | Sg s -> s\n  | Ng -> \"\"\n", deps: []int{0, 1}, owns: exact("gusey")},
+		/*3*/ {name: "gother", src: "let gother (o:Og<string>) =\n  1\n", deps: []int{0}, owns: exact("gother")},
+		/*4*/ {name: "gusex", src: "let gusex () =\n  let (x, _) = gboth 1 \"s\"\n  match x with\n  | Sg i -> i\n  | Ng -> 0\n", deps: []int{0, 1}, owns: exact("gusex")},
+	}
+}
+
 func c07Pool(thorough bool) []c07Def {
 	pool := []c07Def{
 		/*0*/ {name: "R", src: "type R = {A: int; B: string}\n", owns: exact("R"), declOnly: true},
@@ -323,6 +336,9 @@ func checkC07(c *core.Ctx) {
 	amb := c07AmbiguityPool()
 	c.Set("ambiguity_pool_size", len(amb))
 	c07ExplorePool(c, sc, fc, amb, [][2]int{{len(amb), maxFiles}})
+	inst := c07InstantiationPool()
+	c.Set("instantiation_pool_size", len(inst))
+	c07ExplorePool(c, sc, fc, inst, [][2]int{{len(inst), maxFiles}})
 }
 
 // c07ExplorePool computes the reference texts of a pool and explores its histories; nil if a minimal history fails.
